@@ -77,6 +77,9 @@ func main() {
 	add([]hx.RecSpec{e(0)}, 100, true)
 	add([]hx.RecSpec{r(0)}, 100, true)
 	add([]hx.RecSpec{x(1), e(1), r(1)}, 65537, true)
+	// added later (appended so that earlier files keep their seeds): an ssh-rsa key with a 2052-bit modulus
+	add([]hx.RecSpec{r(4)}, 100, false)
+	add([]hx.RecSpec{x(2), r(4)}, 65536, true)
 	b, _ := json.MarshalIndent(entries, "", " ")
 	if err := os.WriteFile(filepath.Join(dir, "manifest.json"), b, 0o644); err != nil {
 		panic(err)
